@@ -543,6 +543,9 @@ func (w *World) Step(root *Node, ph Phase, cfg *HistCfg) error {
 			if n.Parent != nil && !cfg.PopOnChild {
 				return nil
 			}
+			if n.Parent == nil && len(n.Elems) > 30 && r.Intn(4) != 0 {
+				return nil // bulk pops of nested containers are the frequent case; a large root is rarely wiped
+			}
 			return w.OpArrayPop(n)
 		}
 	}
@@ -613,6 +616,9 @@ func (w *World) Step(root *Node, ph Phase, cfg *HistCfg) error {
 		if n.Parent != nil && !cfg.PopOnChild {
 			return nil
 		}
+		if n.Parent == nil && len(n.M) > 30 && r.Intn(4) != 0 {
+			return nil
+		}
 		return w.OpMapPop(n)
 	}
 }
@@ -636,8 +642,8 @@ func (w *World) discardUnused(v *Node) error {
 
 var (
 	PhaseGrow   = Phase{Name: "grow", Insert: 70, Set: 10, Remove: 5, Read: 10, Meta: 3, Pop: 0}
-	PhaseChurn  = Phase{Name: "churn", Insert: 30, Set: 25, Remove: 28, Read: 12, Meta: 4, Pop: 0}
-	PhaseShrink = Phase{Name: "shrink", Insert: 8, Set: 12, Remove: 65, Read: 10, Meta: 4, Pop: 0}
+	PhaseChurn  = Phase{Name: "churn", Insert: 30, Set: 25, Remove: 28, Read: 12, Meta: 4, Pop: 1}
+	PhaseShrink = Phase{Name: "shrink", Insert: 8, Set: 12, Remove: 65, Read: 10, Meta: 4, Pop: 1}
 	PhaseDrain  = Phase{Name: "drain", Insert: 0, Set: 2, Remove: 90, Read: 6, Meta: 1, Pop: 1}
 )
 
